@@ -214,17 +214,18 @@ PROPS = {
                    "the subtrees below a multi-action decision node are built with exactly this player's memory updated. Partial: see note.",
         level_note="Per-node checks only, with the recursive call and the IndexMap / HashMap / HashSet tables bound to uninterpreted "
                    "functions / assumed contracts. The dispatch on the number of children (EmptyChance, a single outcome takes the node's place, EmptyPlayer, single-action route) is "
-                   "decided too. NOT decided: the body of the "
-                   "single-action arm (its HashMap entry code), renormalisation of chance weights, the composition over the tree "
+                   "decided too. The single-action arm too (same action wherever the infoset occurs, recorded once, memories unchanged; HashMap entry API as an "
+                   "assumed contract). NOT decided: renormalisation of chance weights, the composition over the tree "
                    "('succeeds if and only if'), 'never panics', from_root's final conversion of the builders.",
         verus=[U("c11_init_recurse", ["C11.V.init_recurse.terminal_finite", "C11.V.init_recurse.chance_weight", "C11.V.init_recurse.chance_outcome_kept",
                                        "C11.V.init_recurse.same_probabilities", "C11.V.init_recurse.same_actions", "C11.V.init_recurse.perfect_recall",
                                        "C11.V.init_recurse.distinct_actions", "C11.V.init_recurse.records_infoset", "C11.V.init_recurse.recall_bookkeeping",
-                                       "C11.V.init_recurse.empty_chance", "C11.V.init_recurse.single_outcome_elided", "C11.V.init_recurse.empty_player", "C11.V.init_recurse.player_dispatch"])],
+                                       "C11.V.init_recurse.empty_chance", "C11.V.init_recurse.single_outcome_elided", "C11.V.init_recurse.empty_player", "C11.V.init_recurse.player_dispatch",
+                                       "C11.V.init_recurse.single_action_same", "C11.V.init_recurse.single_action_recorded_once"])],
         kani_functions=[],
         trusted_base=["uninterpreted float semantics + IEEE classification facts (Kani harness ieee_classification)",
-                      "assumed contracts on compact::{OccupiedEntry, VacantEntry} (IndexMap), slice comparison, HashSet::len of collected references"],
-        not_decided=["composition over the tree (succeeds iff every node satisfies every rule)", "body of the single-action arm", "never panics", "chance weight renormalisation", "from_root's conversion of the builders"],
+                      "assumed contracts on compact::{OccupiedEntry, VacantEntry} (IndexMap), std HashMap::entry (prophecy of the entry's use), slice comparison, HashSet::len of collected references, == of user label types being equality"],
+        not_decided=["composition over the tree (succeeds iff every node satisfies every rule)", "never panics", "chance weight renormalisation", "from_root's conversion of the builders"],
     ),
     "C13": dict(
         level="proof",
